@@ -109,7 +109,9 @@ CLAIMS: dict[str, tuple[str, str, str, str]] = {
         "maxNesting. Likewise m_no_html (Props/C10f.lean) for block-level HTML in the block sub-parser with nine of the eleven rules. full_no_html (Props/C04c.lean): end to end "
         "for MarkdownIt.parse on the modelled sub-language (nine of eleven block rules, eleven of twelve inline rules incl. link and image, core chain; "
         "tie `fullparse`) — with html off, whatever rules are enabled, no html_block token and no html_inline token below any inline token at any depth "
-        "of nested image descriptions. PARTIAL: for the rules outside the two sub-parsers 'html off => no html token and only vocabulary "
+        "of nested image descriptions; full_render_no_raw composes it with no_raw: MarkdownIt.render end to end on that sub-language with html off emits no raw "
+        "pass-through piece — every character of the HTML is the renderer's own markup or input text that went through escapeHtml (tie `fullrender`: the HTML of "
+        "whole documents under random xhtmlOut / breaks / langPrefix, model vs implementation). PARTIAL: for the rules outside the two sub-parsers 'html off => no html token and only vocabulary "
         "tags' is carried by T1 + its dynamic twin, not by a parser theorem; proper nesting of output tags is decided by the "
         "output lexer on the implementation (incl. a bounded-exhaustive delimiter sweep), not proved. Tie: "
         "renderer model vs real RendererHTML on generated streams/configurations, escapeHtml exhaustively per "
